@@ -83,6 +83,12 @@ def setContains (s : Option (List String)) (k : String) : Except PyErr Bool :=
   | none => .error .typeError
   | some ps => .ok (ps.contains k)
 
+/-- truthiness of a `set[str] | None`: tracked and not empty -/
+def setTruthy (s : Option (List String)) : Bool :=
+  match s with
+  | some (_ :: _) => true
+  | _ => false
+
 /-! ### `deque[str | None]` with `maxlen` -/
 def dqNew (xs : List (Option String)) (maxlen : Nat) : List (Option String) := xs.drop (xs.length - maxlen)
 def dqGet (d : List (Option String)) (i : Nat) : Except PyErr (Option String) :=
